@@ -145,7 +145,7 @@ def run(ctx):
             if dim == 3: scale[1, 2] = rng.choice([0.5, -0.25])
         grid = of.Grid(dim, length, scale)
         for spinless in (True, False):
-            if grid.num_points * (1 if spinless else 2) > N(9, 16): continue
+            if grid.num_points * (1 if spinless else 2) > N(9, 12): continue
             for const in (False, True):
                 jq = jordan_wigner_dual_basis_jellium(grid, spinless, const)
                 fm = dual_basis_jellium_model(grid, spinless, True, True, const)
